@@ -89,8 +89,14 @@ impl PlaneSector {
     /// half of this line which starts at the center point and points in the direction of the
     /// start angle is part of the sector.
     fn is_behind_ray(&self, point: Point) -> bool {
+        let left = self.half_plane_left.normal_vector;
+        let right = self.half_plane_right.normal_vector;
+
+        // The borders are the same line if the normal vectors are parallel and point in the same
+        // direction, they don't need to have the same length.
         if self.operation != Operation::Intersection
-            || self.half_plane_left.normal_vector != self.half_plane_right.normal_vector
+            || left.determinant(right) != 0
+            || left.dot_product(right) <= 0
         {
             return false;
         }
